@@ -203,7 +203,8 @@ def simulate(prog, flavour, nruns=1, run_test_with=None, runner="plain"):
         rr.events = world.events
         rr.exec_log = [e[1:] for e in world.exec_log]
         rr.exec_seq = [e[0] for e in world.exec_log]
-        rr.cleanups_left = list(case._cleanups)
+        # (a private attribute: where it does not exist the clause falls back on what a re-run shows)
+        rr.cleanups_left = list(getattr(case, "_cleanups", ()))
         rr.handler_log = env.handler_log
         rr.op_obs = env.op_obs
         rr.clobbered = env.clobbered
